@@ -282,6 +282,28 @@ class ShortReader(object):
         self.f.close()
 
 
+def app_exception(p, msg):
+    """the exception a failing application program raises: RuntimeError unless the program names another class
+    (OSError subclasses matter: the workers treat some OSErrors from handle_request() as socket trouble)"""
+    kind = p.get("fail_exc") or "RuntimeError"
+    if kind == "FileNotFoundError":
+        return FileNotFoundError(errno.ENOENT, "No such file or directory: 'template.html'")
+    if kind == "PermissionError":
+        return PermissionError(errno.EACCES, "Permission denied")
+    if kind == "TimeoutError":
+        return TimeoutError(errno.ETIMEDOUT, "upstream timed out")
+    if kind == "OSError:EIO":
+        return OSError(errno.EIO, "Input/output error")
+    if kind == "ConnectionResetError":
+        return ConnectionResetError(errno.ECONNRESET, "upstream reset")
+    if kind == "KeyError":
+        return KeyError(msg)
+    if kind == "socket.timeout":
+        import socket
+        return socket.timeout("timed out")
+    return RuntimeError(msg)
+
+
 class AppProgram(object):
     """Interprets a program dict:
        status, headers [[k, v]...], mode in list|gen|write|write+list|file|bytesio, chunks [latin-1 str],
@@ -314,7 +336,7 @@ class AppProgram(object):
             raise
         if p.get("fail") == "before_start":
             rec["raised"] = "app:before_start"
-            raise RuntimeError("app failure before start_response")
+            raise app_exception(p, "app failure before start_response")
         status = p.get("status", "200 OK")
         headers = [tuple(h) for h in p.get("headers", [])]
 
@@ -353,7 +375,7 @@ class AppProgram(object):
             write = do_start()
             if fail == "after_start":
                 rec["raised"] = "app:after_start"
-                raise RuntimeError("app failure after start_response")
+                raise app_exception(p, "app failure after start_response")
             for c in (chunks if p.get("write_first") else []):
                 rec["produced"] += len(c)
                 try:
@@ -382,12 +404,12 @@ class AppProgram(object):
                 for i, c in enumerate(chunks):
                     if fail == "mid" and i == fail_k:
                         rec["raised"] = "app:mid"
-                        raise RuntimeError("app failure mid-body")
+                        raise app_exception(p, "app failure mid-body")
                     rec["produced"] += len(c)
                     yield c
                 if fail == "mid" and fail_k >= len(chunks):
                     rec["raised"] = "app:mid"
-                    raise RuntimeError("app failure at end of body")
+                    raise app_exception(p, "app failure at end of body")
                 rec["completed"] = True
             finally:
                 pass
@@ -406,14 +428,14 @@ class AppProgram(object):
                 rec["closed"] = True
                 if fail == "in_close":
                     rec["raised"] = "app:in_close"
-                    raise RuntimeError("app failure in close()")
+                    raise app_exception(p, "app failure in close()")
 
         if p.get("lazy_start"):
             def lazy():
                 do_start()
                 if fail == "after_start":
                     rec["raised"] = "app:after_start"
-                    raise RuntimeError("app failure after start_response")
+                    raise app_exception(p, "app failure after start_response")
                 for c in gen():
                     yield c
             return Closing(lazy())
@@ -423,13 +445,13 @@ class AppProgram(object):
             write = do_restart()
         if fail == "after_start":
             rec["raised"] = "app:after_start"
-            raise RuntimeError("app failure after start_response")
+            raise app_exception(p, "app failure after start_response")
         if mode in ("write", "write+list"):
             nw = len(chunks) if mode == "write" else (len(chunks) + 1) // 2
             for i, c in enumerate(chunks[:nw]):
                 if fail == "mid" and i == fail_k:
                     rec["raised"] = "app:mid"
-                    raise RuntimeError("app failure mid-body")
+                    raise app_exception(p, "app failure mid-body")
                 rec["produced"] += len(c)
                 try:
                     write(c)
